@@ -371,6 +371,39 @@ def gen_arith(rng):
     return '\n'.join(lines) + '\n'
 
 
+def check_shared_roles(ctx, rng):
+    """one identifier in two roles - a plain variable (assignment target, argument, keyword value) and the name that is called or
+    defined - consistently replaced by ONE placeholder: the pattern comes from the program, so a match that binds the placeholder to
+    the identifier must be returned (the placeholder lands in two of the matcher's symbol tables; seeded C11-19)"""
+    from pedal.core.commands import clear_report, contextualize_report
+    templates = [
+        ('{f} = print\n{f}({n})\n', '_p0_ = print\n_p0_({n})'),
+        ('{f} = print\n{f}({n})\n', '_p0_ = ___\n_p0_(___)'),
+        ('def {f}(v):\n    return v\nprint(sorted([2, 1], key={f}))\n{f}({n})\n', 'def _p0_(v):\n    return v\nprint(sorted([2, 1], key=_p0_))'),
+        ('def {f}(v):\n    return v\nprint(sorted([2, 1], key={f}))\n{f}({n})\n', 'print(sorted(___, key=_p0_))\n_p0_({n})'),
+        ('{f} = len\nprint({f}("ab"), {f})\n', 'print(_p0_("ab"), _p0_)'),
+        ('{f} = len\n{g} = {n}\nprint({f}("ab"), {f}, {g})\n', '_p0_ = len\n_p1_ = {n}\nprint(_p0_(___), _p0_, _p1_)'),
+        ('def {f}(x):\n    return x + {n}\n{g} = {f}\nprint({g}(3))\n', '_p1_ = ___\nprint(_p1_(3))'),
+        ('def {f}(x):\n    return x + {n}\n{g} = {f}\nprint({g}(3), {f}(4))\n', 'def _p0_(x):\n    return x + {n}\n_p1_ = _p0_\nprint(_p1_(3), _p0_(4))'),
+        ('{g} = [3, 1]\n{f} = sorted\n{g} = {f}({g})\nprint({f}, {g})\n', '_p1_ = _p0_(_p1_)\nprint(_p0_, _p1_)'),
+    ]
+    for src_t, pat_t in templates:
+        for _ in range(2):
+            f, g = rng.sample(['show', 'key', 'cb', 'helper', 'apply', 'fn', 'pick', 'tally'], 2)
+            n = rng.randint(0, 9)
+            src = src_t.replace('{f}', f).replace('{g}', g).replace('{n}', str(n))
+            d = cc.Derived()
+            d.root_kind = 'Module'
+            d.steps = ['drop', 'var', 'wild']
+            d.var_bindings = {ph: name for ph, name in (('_p0_', f), ('_p1_', g)) if ph in pat_t}
+            d.exp_bindings = {}
+            d.pattern = pat_t.replace('{n}', str(n))
+            clear_report()
+            contextualize_report(src)
+            ctx.count('shared_role_patterns')
+            check_pair(ctx, src, ast.parse(src), d, 'one-identifier-in-two-roles')
+
+
 def run(ctx):
     import os, sys
     sys.setrecursionlimit(20000)     # copy.deepcopy of syntax trees needs several frames per tree level
@@ -387,6 +420,8 @@ def run(ctx):
         check_program(ctx, rng, gen_arith(rng), 'arith', 6)
     if ctx.shard % 4 == 2:
         check_long_bodies(ctx, rng)
+    if ctx.shard % 4 == 1:
+        check_shared_roles(ctx, rng)
     files = corpus.corpus_files(max_bytes=ctx.pick(5000, 15000), repo=repo)
     mine = files[ctx.shard::ctx.nshards]
     rng.shuffle(mine)
